@@ -61,7 +61,7 @@ C03 = [
 def _bq(fn, qb=32, lis=0, cost=60, defs=None, **kw):
     d = {"QB": qb}; d.update(defs or {})
     return Job(name=fn + "__q.sat", driver="bitmap.drv.c", entry="hq_" + fn, enforce=fn + "/" + fn + "__q",
-               min_lis=lis, cost=cost, family="bitmap", defines=d, label="bounded",
+               min_lis=lis, cost=cost, family="bitmap", defines=d, label="bounded", tdefs={"QB": 2 * qb}, ttimeout=3600,
                note="quantified hypothesis expanded for bitmaps <= %d words (SAT); loops closed by invariants" % qb, **kw)
 
 C03 += [
@@ -93,6 +93,8 @@ C03 += [
     _bz("hwloc_bitmap_isincluded", lis=6, cost=30),
     _bz("hwloc_bitmap_singlify", lis=10, cost=100, defs={"Q_SINGLIFY": None}),
     _bz("hwloc_bitmap_compare", lis=6, cost=400, defs={"Q_COMPARE": None}, timeout=1800, tiers=("thorough",)),
+    _bz("hwloc_bitmap_compare_inclusion", lis=10, cost=900, defs={"Q_CINC": None}, timeout=3600, tiers=("thorough",)),
+    _bz("hwloc_bitmap_compare_first", lis=3, cost=900, defs={"Q_COMPARE_FIRST": None}, timeout=3600, tiers=("thorough",)),
 ]
 
 C03 += [
@@ -116,7 +118,7 @@ def _tp(name, entry, unwind, cost=20, label="proof", note="", defs=None, driver=
     # NULL+0 (tmp += res with string==NULL, size==0, res clamped to 0) is the snprintf(NULL,0) idiom of these
     # functions; cbmc's pointer-overflow check rejects any arithmetic on NULL, so it is off for this family.
     return Job(name=name, driver=driver, entry=entry, mode="plain", unwind=unwind, min_post=0, cost=cost,
-               label=label, family="traversal", defines=dict(defs or {}), note=note,
+               label=label, family="traversal", defines=dict(defs or {}), note=note, tdefs=({"BUFMAX": 128} if driver == "traversal.drv.c" else None), ttimeout=3600,
                drop_checks=("--pointer-overflow-check",), **kw)
 
 C11 = [
@@ -192,9 +194,10 @@ PROPS["C02"] = [ALLOW_GUARD]
 
 
 # ------------------------------------------------------------------ C04 bitmap string conversions
-def _pr(fn, cost=60, unwind=2, **kw):
+def _pr(fn, cost=60, unwind=2, tdefs=None, **kw):
+    tdefs = {"BUFMAX": 128, "NW": 128} if tdefs is None else tdefs
     return Job(name=fn, driver="bitmap.print.drv.c", entry="hp_" + fn, mode="plain", unwind=unwind, min_post=0, cost=cost,
-               family="printers", plain_loop_contracts=True, drop_checks=("--pointer-overflow-check",),
+               family="printers", plain_loop_contracts=True, drop_checks=("--pointer-overflow-check",), tdefs=tdefs, ttimeout=3600,
                fallback_plain={"defines": {"BUFMAX": 8, "NW": 2}, "unwind": 7}, **kw)
 
 C04 = [
@@ -202,12 +205,12 @@ C04 = [
     _pr("hwloc_bitmap_taskset_snprintf", note="snprintf contract + termination; any bitmap with <= 64 stored words, both tails, buffers 0..64 or NULL"),
     _pr("hwloc_bitmap_list_snprintf", note="snprintf contract + termination; any bitmap with <= 64 stored words, both tails, buffers 0..64 or NULL; next/next_unset inlined under their own loop invariants"),
 ] + [
-    _pr(fn, cost=200, defines={"VERIF_ASPRINTF": None, "NW": 8}, timeout=1500,
+    _pr(fn, cost=200, defines={"VERIF_ASPRINTF": None, "NW": 8}, timeout=1500, tdefs={"NW": 16},
         note="both passes + allocation of len+1 bytes are memory safe and terminate, returns a length with a string or -1; any bitmap with <= 8 stored words; that both passes produce the same text is assumed (snprintf contract stub)")
     for fn in ("hwloc_bitmap_asprintf", "hwloc_bitmap_list_asprintf", "hwloc_bitmap_taskset_asprintf")
 ] + [
     Job(name=fn, driver="bitmap.parse.drv.c", entry="hp_" + fn, mode="plain", unwind=9, min_post=0, cost=60, label="bounded",
-        family="parsers", defines={"SLEN": 6}, timeout=1200,
+        family="parsers", defines={"SLEN": 6}, timeout=1200, tdefs={"SLEN": 8}, ttimeout=7200, tunwind=11,
         note="arbitrary NUL-terminated string of <= 6 bytes (all byte values): returns 0/-1, memory safe, no failed assertion, REP preserved; loops unwound 9 times with unwinding assertions; strtoul as contract stub")
     for fn in ("hwloc_bitmap_sscanf", "hwloc_bitmap_taskset_sscanf")
 ]
